@@ -323,6 +323,224 @@ fn compound_cases() -> Vec<Case> {
     out
 }
 
+// ------------------------------------------------------------------------------------ the `where` section
+#[derive(Clone)]
+enum LV { I(i64), F(f64), B(bool), S(String), Arr(Vec<LV>) }
+#[derive(Clone)]
+enum LE { Lit(LV), Var(String), Un(&'static str, Box<LE>), Bin(&'static str, Box<LE>, Box<LE>), Acc(String, Vec<LE>), Call(String, Vec<LE>) }
+fn lv_txt(v: &LV) -> String { match v { LV::I(i) => i.to_string(), LV::F(x) => crate::pre_gen::fmt_f64(*x), LV::B(b) => b.to_string(), LV::S(s) => format!("\"{}\"", s), LV::Arr(vs) => format!("[{}]", vs.iter().map(lv_txt).collect::<Vec<_>>().join(", ")) } }
+fn lv_sx(v: &LV) -> String { match v { LV::I(i) => format!("(int {})", i), LV::F(x) => format!("(num {})", sx::num(*x)), LV::B(b) => format!("(bool {})", b), LV::S(s) => format!("(str {})", sx::q(s)), LV::Arr(vs) => format!("(arr{})", vs.iter().map(|x| format!(" {}", lv_sx(x))).collect::<String>()) } }
+fn le_txt(e: &LE) -> String {
+    match e {
+        LE::Lit(v) => lv_txt(v), LE::Var(n) => n.clone(),
+        LE::Un(op, a) => format!("{}({})", if *op == "neg" { "-" } else { "!" }, le_txt(a)),
+        LE::Bin(op, a, b) => format!("({}) {} ({})", le_txt(a), match *op { "add" => "+", "sub" => "-", "mul" => "*", "div" => "/", "and" => "and", "or" => "or", "xor" => "xor", "implies" => "implies", _ => "iff" }, le_txt(b)),
+        LE::Acc(n, ix) => format!("{}{}", n, ix.iter().map(|i| format!("[{}]", le_txt(i))).collect::<String>()),
+        LE::Call(f, args) => format!("{}({})", f, args.iter().map(le_txt).collect::<Vec<_>>().join(", ")),
+    }
+}
+fn le_sx(e: &LE) -> String {
+    match e {
+        LE::Lit(v) => format!("(lit {})", lv_sx(v)), LE::Var(n) => format!("(var {})", sx::q(n)),
+        LE::Un(op, a) => format!("(un {} {})", op, le_sx(a)), LE::Bin(op, a, b) => format!("(bin {} {} {})", op, le_sx(a), le_sx(b)),
+        LE::Acc(n, ix) => format!("(acc {}{})", sx::q(n), ix.iter().map(|i| format!(" {}", le_sx(i))).collect::<String>()),
+        LE::Call(f, args) => format!("(call {}{})", sx::q(f), args.iter().map(|i| format!(" {}", le_sx(i))).collect::<String>()),
+    }
+}
+/// what the generator believes a name holds (only used to bias towards well-typed programs)
+#[derive(Clone, PartialEq)]
+enum LK { Num, Bool, Str, ArrNum, ArrStr, Mat, Other }
+
+fn gen_lit(r: &mut Rng, k: &LK) -> LV {
+    match k {
+        LK::Num => if r.chance(1, 3) { LV::F(r.range(0, 9) as f64 / 2.0) } else { LV::I(r.range(0, 6)) },
+        LK::Bool => LV::B(r.chance(1, 2)), LK::Str => LV::S(r.pick(&["a", "b", "cd"]).to_string()),
+        LK::ArrNum => { let fl = r.chance(1, 4); LV::Arr((0..r.below(4)).map(|_| if fl { LV::F(r.range(0, 9) as f64 / 2.0) } else { LV::I(r.range(0, 6)) }).collect()) }
+        LK::ArrStr => LV::Arr((0..1 + r.below(3)).map(|_| LV::S(r.pick(&["a", "b"]).to_string())).collect()),
+        LK::Mat => LV::Arr((0..1 + r.below(3)).map(|_| LV::Arr((0..1 + r.below(3)).map(|_| LV::I(r.range(0, 6))).collect())).collect()),
+        LK::Other => match r.below(3) { 0 => LV::Arr(vec![LV::I(1), LV::S("a".into())]), 1 => LV::Arr(vec![]), _ => LV::Arr(vec![LV::Arr(vec![LV::I(1)]), LV::Arr(vec![LV::S("a".into())])]) },
+    }
+}
+fn gen_le(r: &mut Rng, env: &[(String, LK)], want: &LK, d: u32) -> (LE, LK) {
+    let pick_var = |r: &mut Rng, k: &LK| -> Option<String> { let c: Vec<&String> = env.iter().filter(|p| &p.1 == k).map(|p| &p.0).collect(); if c.is_empty() { None } else { Some((*r.pick(&c)).clone()) } };
+    // a deliberate type error / unknown name now and then
+    if r.chance(1, 14) {
+        let wrong = r.pick(&[LK::Num, LK::Bool, LK::Str, LK::ArrNum, LK::Mat, LK::Other]).clone();
+        if r.chance(1, 4) { return (LE::Var("nope".into()), LK::Other); }
+        let (e, _) = gen_le(r, env, &wrong, 0);
+        return (e, want.clone());
+    }
+    if d == 0 || r.chance(1, 3) {
+        if r.chance(1, 2) { if let Some(n) = pick_var(r, want) { return (LE::Var(n), want.clone()); } }
+        return (LE::Lit(gen_lit(r, want)), want.clone());
+    }
+    match want {
+        LK::Num => match r.below(7) {
+            0 => { let (a, _) = gen_le(r, env, &LK::Num, d - 1); (LE::Un("neg", Box::new(a)), LK::Num) }
+            1 => { let arr = if r.chance(1, 5) { LK::Mat } else { LK::ArrNum }; let (a, _) = gen_le(r, env, &arr, 0); (LE::Call(if r.chance(1, 10) { "lenn".into() } else { "len".into() }, if r.chance(1, 10) { vec![a.clone(), a] } else { vec![a] }), LK::Num) }
+            2 => { if let Some(n) = pick_var(r, &LK::ArrNum) { let (i, _) = gen_le(r, env, &LK::Num, d - 1); (LE::Acc(n, vec![i]), LK::Num) } else { (LE::Lit(gen_lit(r, &LK::Num)), LK::Num) } }
+            3 => { if let Some(n) = pick_var(r, &LK::Mat) { let (i, _) = gen_le(r, env, &LK::Num, 0); let (j, _) = gen_le(r, env, &LK::Num, 0); (LE::Acc(n, vec![i, j]), LK::Num) } else { (LE::Lit(gen_lit(r, &LK::Num)), LK::Num) } }
+            _ => { let op = *r.pick(&["add", "sub", "mul", "div", "add", "mul"]); let lk = if r.chance(1, 8) { LK::Bool } else { LK::Num }; let (a, _) = gen_le(r, env, &lk, d - 1); let (b, _) = gen_le(r, env, &LK::Num, d - 1); (LE::Bin(op, Box::new(a), Box::new(b)), LK::Num) }
+        },
+        LK::Bool => match r.below(4) {
+            0 => { let (a, _) = gen_le(r, env, &LK::Bool, d - 1); (LE::Un("not", Box::new(a)), LK::Bool) }
+            _ => { let op = *r.pick(&["and", "or", "xor", "implies", "iff"]); let (a, _) = gen_le(r, env, &LK::Bool, d - 1); let (b, _) = gen_le(r, env, &LK::Bool, d - 1); (LE::Bin(op, Box::new(a), Box::new(b)), LK::Bool) }
+        },
+        LK::Str => { let (a, _) = gen_le(r, env, &LK::Str, d - 1); let (b, _) = gen_le(r, env, &LK::Str, d - 1); (LE::Bin("add", Box::new(a), Box::new(b)), LK::Str) }
+        LK::ArrNum => match r.below(3) {
+            0 => { let (a, _) = gen_le(r, env, &LK::Num, d - 1); let (b, _) = gen_le(r, env, &LK::Num, d - 1); (LE::Call("range".into(), if r.chance(1, 10) { vec![a, b] } else { vec![a, b, LE::Lit(LV::B(r.chance(1, 2)))] }), LK::ArrNum) }
+            1 => { if let Some(n) = pick_var(r, &LK::Mat) { let (i, _) = gen_le(r, env, &LK::Num, 0); (LE::Acc(n, vec![i]), LK::ArrNum) } else { (LE::Lit(gen_lit(r, &LK::ArrNum)), LK::ArrNum) } }
+            _ => (LE::Lit(gen_lit(r, &LK::ArrNum)), LK::ArrNum),
+        },
+        k => (LE::Lit(gen_lit(r, k)), k.clone()),
+    }
+}
+
+fn le_features(e: &LE, out: &mut Vec<&'static str>) {
+    match e {
+        LE::Lit(LV::Arr(vs)) => { out.push(if vs.is_empty() { "lit:empty-array" } else if vs.iter().any(|v| matches!(v, LV::Arr(_))) { "lit:nested-array" } else { "lit:array" }); }
+        LE::Lit(_) => {}
+        LE::Var(n) => { if ["PI", "Infinity", "MinusInfinity"].contains(&n.as_str()) { out.push("var:std-constant"); } else if n == "nope" { out.push("var:undeclared"); } else { out.push("var"); } }
+        LE::Un(op, a) => { out.push(if *op == "neg" { "un:neg" } else { "un:not" }); le_features(a, out); }
+        LE::Bin(op, a, b) => { out.push(match *op { "add" | "sub" | "mul" => "bin:arith", "div" => "bin:div", _ => "bin:logic" }); le_features(a, out); le_features(b, out); }
+        LE::Acc(_, ix) => { out.push(if ix.len() == 1 { "access:1" } else { "access:2" }); for i in ix { le_features(i, out); } }
+        LE::Call(f, args) => { out.push(match (f.as_str(), args.len()) { ("len", 1) => "call:len", ("len", _) => "call:len-arity", ("range", 3) => "call:range", ("range", _) => "call:range-arity", _ => "call:unknown" }); for a in args { le_features(a, out); } }
+    }
+}
+
+fn class_of(e: &TransformError) -> String {
+    let v = variant(e);
+    if numeric_conversion(e) { return "Other".into(); }
+    match v.as_str() { "TooLarge" | "AlreadyDeclaredVariable" | "AlreadyDefined" => "Other".into(), _ => v }
+}
+
+/// the `where` section as a program of its own: verdict of the type checker, the static kind it assigns to every
+/// constant (token type map), the outcome of `transform` and the numeric value of every constant
+fn lets_cases(r: &mut Rng, n: usize) -> Vec<Case> {
+    let mut out = vec![];
+    for _ in 0..n {
+        let mut env: Vec<(String, LK)> = if r.chance(1, 4) { vec![("PI".to_string(), LK::Num), ("Infinity".to_string(), LK::Num), ("MinusInfinity".to_string(), LK::Num)] } else { vec![] };
+        let mut lets: Vec<(String, LE)> = vec![];
+        for k in 0..2 + r.below(5) {
+            let want = r.pick(&[LK::Num, LK::Num, LK::Num, LK::Bool, LK::Str, LK::ArrNum, LK::ArrNum, LK::Mat, LK::ArrStr, LK::Other]).clone();
+            let (e, kind) = gen_le(r, &env, &want, 2);
+            let name = if r.chance(1, 20) && !env.is_empty() { env[0].0.clone() } else if r.chance(1, 25) { "_".to_string() } else { format!("q{}", k) };
+            if name != "_" && !env.iter().any(|p| p.0 == name) { env.push((name.clone(), kind)); }
+            lets.push((name, e));
+        }
+        out.push(lets_case(&lets));
+    }
+    // regression (67931d1): `let _ = e` discards, whatever names occur inside e
+    let q0 = ("q0".to_string(), LE::Lit(LV::Arr(vec![LV::I(6), LV::I(2)])));
+    let us = |e: LE| ("_".to_string(), e);
+    for (_i, rest) in [
+        vec![us(LE::Acc("q0".into(), vec![LE::Lit(LV::I(0))]))],
+        vec![us(LE::Call("len".into(), vec![LE::Var("q0".into())]))],
+        vec![us(LE::Call("lenn".into(), vec![LE::Var("q0".into())]))],
+        vec![us(LE::Bin("add", Box::new(LE::Lit(LV::I(1))), Box::new(LE::Lit(LV::I(2)))))],
+        vec![us(LE::Var("q0".into()))],
+        vec![us(LE::Lit(LV::I(1))), us(LE::Acc("q0".into(), vec![LE::Lit(LV::I(1))])), ("q1".to_string(), LE::Acc("q0".into(), vec![LE::Lit(LV::I(1))]))],
+        vec![us(LE::Acc("q0".into(), vec![LE::Lit(LV::I(7))]))],
+        vec![us(LE::Bin("div", Box::new(LE::Lit(LV::I(1))), Box::new(LE::Lit(LV::I(0)))))],
+        vec![us(LE::Call("range".into(), vec![LE::Lit(LV::I(0)), LE::Call("len".into(), vec![LE::Var("q0".into())]), LE::Lit(LV::B(false))]))],
+    ].into_iter().enumerate() {
+        let mut lets = vec![q0.clone()];
+        lets.extend(rest);
+        let mut c = lets_case(&lets);
+        c.tags.push("lets:underscore-regression".into());
+        out.push(c);
+    }
+    // which names a constant may take (`check_if_reserved_token`)
+    for name in ["min", "max", "where", "in", "for", "as", "if", "else", "solve", "true", "false", "Graph", "avg", "abs", "all", "any", "xor", "sum", "prod", "edges", "E", "len", "nodes", "V",
+        "neigh_edges", "N", "neigh_edges_of", "N_of", "enumerate", "enum", "range", "zip", "difference", "union", "intersection", "lenn", "Min", "graph", "sumx", "PI", "Infinity", "e", "n_of", "Sum", "ranges"] {
+        let mut c = lets_case(&[(name.to_string(), LE::Lit(LV::I(1)))]);
+        c.tags.push("lets:reserved-name-probe".into());
+        out.push(c);
+    }
+    out
+}
+
+fn lets_case(lets: &[(String, LE)]) -> Case {
+    let decl = lets.iter().map(|(n, e)| format!("    let {} = {}\n", n, le_txt(e))).collect::<String>();
+    let src = format!("min 1\ns.t.\n    z >= 0\nwhere\n{}define\n    z as Real\n", decl);
+    let res = catch_unwind(AssertUnwindSafe(|| {
+        let pre = RoocParser::new(src.clone()).parse().map_err(|e| e.to_string_from_source(&src))?;
+        // the names the parser gave the constants
+        let names: Vec<(String, u64)> = pre.constants().iter().map(|c| (c.name.value().clone(), c.name.span().start as u64)).collect();
+        let tc = match pre.create_type_checker(&vec![], &IndexMap::new()) { Ok(()) => "(ok)".to_string(), Err(e) => format!("(err {})", class_of(&e)) };
+        let map = pre.create_token_type_map(&vec![], &IndexMap::new());
+        let mut kinds: Vec<(u64, String, String)> = vec![];
+        for (_, tok) in map.iter() {
+            let v = serde_json::to_value(tok).unwrap_or(serde_json::Value::Null);
+            if let Some(id) = v.get("identifier").and_then(|x| x.as_str()) {
+                let start = v.get("span").and_then(|s| s.get("start")).and_then(|x| x.as_u64()).unwrap_or(0);
+                kinds.push((start, id.to_string(), kind_from_json(v.get("value").unwrap_or(&serde_json::Value::Null))));
+            }
+        }
+        let tr = match pre.clone().transform(vec![], &IndexMap::new()) { Ok(_) => "ok".to_string(), Err(e) => format!("(err {})", class_of(&e)) };
+        Ok::<_, String>((names, tc, kinds, tr))
+    }));
+    let underscore = lets.iter().any(|l| l.0 == "_");
+    let (names, tc, kinds, tr) = match res {
+        Ok(Ok(x)) => x,
+        Ok(Err(e)) => {
+            let mut c = Case::default();
+            c.tags = vec!["stream:where-section".into(), "lets-parse-error".into()];
+            c.show = format!("{}\n{}", src, e);
+            if underscore && e.contains("Missing constant body") {
+                c.sig = Some("let-underscore:missing-constant-body".into());
+                c.impl_violation = Some("`let _ = e` is rejected by the parser with `Missing constant body` (the grammar's literal \"_\" yields no `name` token)".into());
+            }
+            return c;
+        }
+        Err(_) => (vec![], "(panic)".into(), vec![], "(panic)".into()),
+    };
+    // the kind recorded at the position of every constant's name, in source order
+    let kind_list: Vec<String> = names.iter().map(|(name, pos)| kinds.iter().find(|k| k.0 == *pos && &k.1 == name).map(|k| k.2.clone()).unwrap_or_else(|| "?".into())).collect();
+    // numeric values, one probe constraint per distinct name
+    let eval = if tr == "ok" {
+        let mut vals = vec![];
+        let mut seen: Vec<&String> = vec![];
+        for (name, _) in &names {
+            if name == "_" || seen.contains(&name) { continue; }
+            seen.push(name);
+            let probe = format!("min 1\ns.t.\n    z >= {}\nwhere\n{}define\n    z as Real\n", name, decl);
+            if let Ok(Ok(m)) = catch_unwind(AssertUnwindSafe(|| RoocParser::new(probe.clone()).parse_and_transform(vec![], &IndexMap::new()))) {
+                if let rooc::model_transformer::Exp::Number(x) = m.constraints()[0].rhs() { vals.push(format!("({} {})", sx::q(name), pre_reflect::numc(*x))); }
+            }
+        }
+        format!("(ok {})", vals.join(" ")).replace("(ok )", "(ok)")
+    } else { tr.clone() };
+    let mut c = Case::default();
+    c.req = format!("lets {}", lets.iter().zip(names.iter()).map(|((_, e), (n, _))| format!("(let {} {})", sx::q(n), le_sx(e))).collect::<Vec<_>>().join(" "));
+    c.imp = format!("(check {} kinds ({}) eval {})", tc, kind_list.join(" "), eval);
+    c.show = format!("{}=> {}", src, c.imp);
+    c.tags = vec!["stream:where-section".into(), format!("lets-typecheck:{}", if tc == "(ok)" { "accepts" } else { "rejects" }), format!("lets-transform:{}", if tr == "ok" { "ok".to_string() } else { tr.clone() })];
+    c.tags.push(format!("lets-typecheck-verdict:{}", tc));
+    let mut feats = vec![];
+    for (_, e) in lets { le_features(e, &mut feats); }
+    feats.sort(); feats.dedup();
+    for f in feats { c.tags.push(format!("lets-feature:{}", f)); }
+    if kind_list.iter().any(|k| k.contains("any")) { c.tags.push("lets-feature:static-any".into()); }
+    if kind_list.iter().any(|k| k == "undefined") { c.tags.push("lets-feature:static-undefined".into()); }
+    c.nontrivial = tc == "(ok)";
+    let trv = tr.trim_start_matches("(err ").trim_end_matches(')');
+    if tc == "(ok)" && TYPE_CLASS.contains(&trv) {
+        let v = run_program(&src);
+        let any = kind_list.iter().any(|k| k.contains("any")) || src.contains("[]") || src.contains("[1, \"a\"]") || src.contains("[[1], [\"a\"]]");
+        c.sig = Some(if v.applicable == Some(true) { format!("{}:operator-applicable", trv) } else if any { format!("{}:any-typed-value", trv) } else { format!("{}:where-section", trv) });
+        c.oracle = format!("sound ok {} {}", trv, match v.applicable { Some(true) => "applicable", Some(false) => "inapplicable", None => "na" });
+        c.impl_violation = Some(format!("the where section is accepted by the type checker and fails at transform with {}", trv));
+    }
+    if let Some(((written, _), (parsed, _))) = lets.iter().zip(names.iter()).find(|(a, b)| a.0 != b.0) {
+        c.tags.push("lets:underscore-renamed".into());
+        c.sig = Some("let-underscore:takes-inner-name".into());
+        c.impl_violation = Some(format!("`let {} = …` was parsed as the constant `{}` (the first `name` token inside its value)", written, parsed));
+    }
+    if c.oracle.is_empty() { c.oracle = format!("sound {} {} {}", if tc == "(ok)" { "ok" } else { "err" }, if tr == "ok" { "ok" } else { trv }, "na"); }
+    c
+}
+
 /// JSON form of a serialized `PrimitiveKind` → protocol spelling
 fn kind_from_json(v: &serde_json::Value) -> String {
     let t = v.get("type").and_then(|x| x.as_str()).unwrap_or("?");
@@ -472,6 +690,7 @@ pub fn generate(seed: u64, n: usize, thorough: bool, corpus: Option<&str>) -> Ve
     // ---- correspondence with the Lean model
     for mut c in pre_reflect::static_cases() { c.tags.push("stream:operator-tables".into()); cases.push(c); }
     cases.extend(builtin_cases(thorough));
+    cases.extend(lets_cases(&mut r, if thorough { 8000 } else { 1500 }));
     cases.extend(destructure_cases());
     cases.extend(compound_cases());
     cases.extend(expr_cases(&mut r, if thorough { 20000 } else { 2000 }));
